@@ -14,7 +14,7 @@ RULE = ("table construction (LALR / SLR without strategies, LALR with prefer-shi
 
 def run_child(seed_tier):
     seed, tier = seed_tier
-    env = dict(os.environ, PYTHONHASHSEED=str(seed), PYTHONDONTWRITEBYTECODE="1", PYTHONPATH=fw.ROOT)
+    env = dict(os.environ, PYTHONHASHSEED=str(seed), PYTHONDONTWRITEBYTECODE="1", PYTHONPATH=(fw.ROOT if fw.REPO == "/repo" else fw.REPO + os.pathsep + fw.ROOT))
     p = subprocess.run([sys.executable, "-m", "vlib.monitors.detchild", tier], capture_output=True, text=True, env=env,
                        cwd=fw.ROOT, timeout=3000)
     if p.returncode != 0:
